@@ -49,7 +49,7 @@ def make(name, step_ft, wind='none', look_deg=0.0, relative_deg=0.0, cant_deg=0.
     if c['zero_yd'] is not None:
         if key not in _CACHE or fresh:
             zshot = p.Shot(p.Weapon(weapon.sight_height, weapon.twist), ammo, U.Degree(look_deg), U.Degree(0.0), U.Degree(cant_deg), atmo, [])
-            zcalc = p.Calculator(_config={'max_calc_step_size_feet': 0.5})
+            zcalc = p.Calculator(_config={'max_calc_step_size_feet': float(step_ft)})   # zeroed with the carrier's own (coarse) solver
             _CACHE[key] = zcalc.set_weapon_zero(zshot, U.Yard(c['zero_yd'])) >> U.Radian
         weapon.zero_elevation = U.Radian(_CACHE[key])
     return calc, shot
